@@ -5,15 +5,12 @@
    and every global slot holding the value a direct big-step semantics of the
    statements gives. *)
 From Coq Require Import ZArith NArith List Bool Lia ZifyBool ZifyNat ZifyN Floats.
-From EvyV Require Import Base Bytecode BytecodeProofs SymTab SymTabProofs Vm VmProofs Compile CompileProofs CompileWfProofs.
+From EvyV Require Import Base Bytecode BytecodeProofs SymTab SymTabProofs Vm VmProofs Compile CompileSem CompileProofs CompileWfProofs.
 Require Import EvyV.Gen.Opcodes.
 Import ListNotations.
 Open Scope N_scope.
 
 (* ---------- the direct semantics of the statement fragment ---------- *)
-Definition upd (env : genv) (n : str) (v : value) : genv :=
-  fun m => if str_eqb m n then Some v else env m.
-
 Definition exec_stmt (env : genv) (s : stmt) : option genv :=
   match s with
   | SDecl n e => option_map (upd env n) (eval_expr env e)
